@@ -55,7 +55,7 @@ EnWhy(x, y, e, pb) ==
   ELSE IF e.op = "bx" THEN
         IF e.symcp # Sym("bx") THEN "bx.symbol"
         ELSE IF ~(x.k = "F" /\ y.k = "F" /\ SlashOK("/", x.s) /\ SlashOK("\\", y.s) /\ Match(y.r, x.l)) THEN "bx.premise"
-        ELSE IF Bare(x.l) /\ Bare(y.r) THEN "bx.over_bare_N_NP"
+        ELSE IF Bare(y.r) THEN "bx.over_bare_N_NP"        \* the composed-over category as the backward functor states it
         ELSE IF Res(r, IsModifier(y), x, Fw(y.l, x.r), x, y, y.r, x.l) THEN "" ELSE "bx.result"
   ELSE IF e.op = "gfc" THEN
         IF e.symcp # Sym("gfc") THEN "gfc.symbol"
@@ -64,7 +64,7 @@ EnWhy(x, y, e, pb) ==
   ELSE IF e.op = "gbx" THEN
         IF e.symcp # Sym("gbx") THEN "gbx.symbol"
         ELSE IF ~(y.k = "F" /\ SlashOK("\\", y.s) /\ x.k = "F" /\ x.l.k = "F" /\ SlashOK("/", x.l.s) /\ Match(y.r, x.l.l)) THEN "gbx.premise"
-        ELSE IF Bare(x.l.l) /\ Bare(y.r) THEN "gbx.over_bare_N_NP"
+        ELSE IF Bare(y.r) THEN "gbx.over_bare_N_NP"
         ELSE IF Res(r, IsModifier(y), x, Fun(Fw(y.l, x.l.r), x.s, x.r), x, y, y.r, x.l.l) THEN "" ELSE "gbx.result"
   ELSE IF e.op = "conj" THEN
         IF e.symcp # Sym("conj") THEN "conj.symbol"
